@@ -147,6 +147,33 @@ class Run:
             return None, out
         return {lab: b for (lab, _), b in zip(items, bs)}, out
 
+    def prove_bools(self, name, header, items, timeout=1500, kind="theorem"):
+        """items: [(label, closed boolean Coq term)].  First tries to compile ALL of them as theorems
+        `ok_<label> : <term> = true` (kernel-checked, Print Assumptions under each).  If that file does
+        not compile, one vm_compute triages them and the theorem file is rebuilt with the true ones.
+        Obliges every proved label; returns ({label: bool}, triage_ok)."""
+        if not items:
+            return {}, True
+        thms = [(f"ok_{n}", f"{t} = true", "vm_compute; reflexivity.") for n, t in items]
+        ok, out = self.coq_theorems(name + "_theorems.v", header, thms, timeout=timeout)
+        if ok:
+            for n, _ in items:
+                self.oblige(n, True, kind)
+            return {n: True for n, _ in items}, True
+        self.notes.get("coq_errors", []) and self.notes["coq_errors"].pop()
+        res, out = self.coq_bools(name + "_triage.v", header, items, timeout=timeout)
+        if res is None:
+            return None, False
+        good = [(n, t) for n, t in items if res[n]]
+        if good:
+            thms = [(f"ok_{n}", f"{t} = true", "vm_compute; reflexivity.") for n, t in good]
+            ok2, out2 = self.coq_theorems(name + "_theorems.v", header, thms, timeout=timeout)
+            for n, _ in good:
+                self.oblige(n, ok2, kind)
+            if not ok2:
+                self.find("coq:" + name + "_theorems", "theorem file does not compile", {"log": out2[-1500:]}, concrete=False)
+        return res, True
+
     def coq_eval(self, name, header, exprs, timeout=600):
         """evaluate Coq terms with vm_compute, one `Eval` per term; returns the list of printed
         values as strings (whitespace-normalised), or None if the file does not compile."""
